@@ -1,11 +1,38 @@
 (* C13 — The next-run text names the earliest upcoming run of the schedule *)
-Require Import AS.Base.Prelude AS.Model.NextRun AS.Spec.NextRun AS.Proofs.NextRunProofs.
+Require Import AS.Base.Prelude AS.Base.Dec AS.Model.ScheduleTools AS.Model.NextRun AS.Model.ScheduleParser AS.Spec.NextRun
+  AS.Proofs.NextRunProofs AS.Proofs.NextRunText.
+
+(* the Spec (Spec/NextRun.v): k(d) = days ahead of weekday d seen from today's weekday w, 7 instead of 0 when today's start
+   is not still ahead; the text follows the minimum: 0 today, 1 tomorrow, else "next <weekday (w + k) mod 7>" *)
 
 (* day choice = earliest future occurrence, for every weekday, flag and duplicate-free selection in any order *)
-Local Open Scope nat_scope.
 Theorem C13_choice w f l : w < 7 -> NoDup l -> (forall d, In d l -> d < 7) ->
   pretty_next_run_core false w f l = next_run_spec w f l.
 Proof. exact (next_run_core_correct w f l). Qed.
 Print Assumptions C13_choice.
-Local Close Scope nat_scope.
 
+(* the whole text, for every zone table, every instant, every start minute and every duplicate-free set of Days in
+   any order: local weekday and local minute of the instant decide, the start is compared as a minute of the day *)
+Theorem C13_text z now s ds : (s < 1440)%N -> NoDup ds -> (forall d, In d ds -> d < n_days) ->
+  pretty_next_run false false z now (hhmm s) ds =
+  text_of (next_run_spec (weekday_of z now) ((60 * fst (hm_of z now) + snd (hm_of z now) <? s)%N) ds) (hhmm s).
+Proof. exact (next_run_text z now s ds). Qed.
+Print Assumptions C13_text.
+
+(* 'today' only if today is selected and the start is still ahead; 'tomorrow' only if tomorrow's weekday is selected;
+   otherwise the named weekday is selected, is not tomorrow, and is today's weekday only when today's time has passed
+   (a full week ahead) *)
+Theorem C13_named_day_is_selected w f l : w < 7 -> NoDup l -> (forall d, In d l -> d < 7) -> l <> [] ->
+  match next_run_spec w f l with
+  | Today => In w l /\ f = true
+  | Tomorrow => In ((w + 1) mod 7) l
+  | NextDay d => In d l /\ d <> (w + 1) mod 7 /\ (d = w -> f = false)
+  | NREx _ => False
+  end.
+Proof. exact (spec_names_a_selected_day w f l). Qed.
+Print Assumptions C13_named_day_is_selected.
+
+Example C13_examples :
+  next_run_spec 2 false [2; 4] = NextDay 4 /\ next_run_spec 2 false [2; 3] = Tomorrow /\
+  next_run_spec 6 false [6; 0] = Tomorrow /\ next_run_spec 2 false [2] = NextDay 2 /\ next_run_spec 2 true [2; 4] = Today.
+Proof. vm_compute. repeat split. Qed.
